@@ -14,6 +14,7 @@ from ..extract import c03_catalogue as C
 from ..extract import c03_getitem
 from ..extract import c03_lean
 from ..extract import c03_opv
+from ..extract import c03_slicepath
 
 UNSUP = re.compile(r"not (currently )?supported|does not support|does not accept|unsupported", re.I)
 INTK = ("int", "negint", "t0", "t0neg")
@@ -372,8 +373,10 @@ def run(chk):
     import os
     dev = os.environ.get("C03_DEV") == "1"
     c03_getitem.generate()
+    c03_slicepath.generate()
     if not dev:
-        chk.prove("LinOp.Properties.C03", ["LinOp/C03", "LinOp/Generated/C03Getitem.lean", "LinOp/Core/Parse.lean"])
+        chk.prove("LinOp.Properties.C03", ["LinOp/C03", "LinOp/Generated/C03Getitem.lean", "LinOp/Generated/C03SlicePath.lean",
+                                            "LinOp/Core/Parse.lean"])
     lean = c03_lean.Lines(chk, enabled=not dev)
     opv = c03_opv.OpvLines(chk, lean)
     front_quota = 3 if chk.tier == "quick" else 8
@@ -400,12 +403,20 @@ def run(chk):
                 # the composed front-end model (normalise, dispatch, convert, class _get_indices) vs dense[idx]
                 opv.add_front(name, batch, dense, idx)
                 nfront += 1
+        nres, res_quota = 0, (2 if chk.tier == "quick" else 6)
         for kinds, idx in twostep_indices(chk.rng, shape, chk.tier):
-            run_case(chk, name, batch, meta, op, dense, kinds, idx, {"opseed": opseed})
+            tg, ok = run_case(chk, name, batch, meta, op, dense, kinds, idx, {"opseed": opseed})
+            if ok and nres < res_quota and lean.enabled:
+                # the result operator built by the class's _getitem, encoded into the Lean operator type
+                nres += 1 if c03_slicepath.add_result_case(chk, opv, name, batch, op, dense, idx) else 0
+        if lean.enabled:
+            c03_slicepath.add_aligned_cases(chk, lean, name, batch, op, dense, chk.rng)
         lean.add_class_cases(name, meta, op, dense, chk.rng)
     lean.add_helper_cases(chk.rng)
     chk.count("opv:structural-nodes", opv.enc.structural) if opv.enc.structural else None
     chk.count("opv:opaque-nodes", opv.enc.opaque) if opv.enc.opaque else None
+    if getattr(opv.enc, "fastpath", 0):
+        chk.count("opv:interp-root-fastpath", opv.enc.fastpath)
     for cname in sorted(opv.enc.classes):
         chk.count("opv:class:" + cname)
     lean.flush()
